@@ -494,12 +494,12 @@ func (v *Verifier) verifyFunc(fn *ssa.Function, fc *FuncContract, em *Emitter, g
 	if fc != nil {
 		for _, cs := range fc.Calls {
 			if !fx.usedCallSites[cs] && cs.Ordinal != -1 {
-				return fx, toolLimit("contract of %s: call site %s#%d not found", fx.relName(), cs.Callee, cs.Ordinal)
+				fx.clauseFaults = append(fx.clauseFaults, fmt.Sprintf("contract of %s: call site %s#%d not found", fx.relName(), cs.Callee, cs.Ordinal))
 			}
 		}
 		for _, ss := range fc.Stores {
 			if !fx.usedCallSites[ss] {
-				return fx, toolLimit("contract of %s: store site %s#%d not found", fx.relName(), ss.Callee, ss.Ordinal)
+				fx.clauseFaults = append(fx.clauseFaults, fmt.Sprintf("contract of %s: store site %s#%d not found", fx.relName(), ss.Callee, ss.Ordinal))
 			}
 		}
 	}
@@ -577,6 +577,9 @@ func gen(args []string) {
 				continue
 			}
 			rep.Loops = len(fx.loops)
+			for _, cf := range fx.clauseFaults {
+				res.Faults = append(res.Faults, fmt.Sprintf("%s: %s", rep.Func, cf))
+			}
 			rep.CallRules = fx.callStats
 			for n := range fx.havocNames {
 				rep.Abstracted = append(rep.Abstracted, n)
